@@ -608,10 +608,10 @@ func TestCheck(t *testing.T) {
 	}
 
 	rng := r.Rand("c13")
-	nDirect := r.N(5000, 100000)
-	nInformer := r.N(120, 2400)
-	nForced := r.N(160, 3200)
-	nConc := r.N(80, 1600)
+	nDirect := r.N(5000, 500000)
+	nInformer := r.N(120, 10000)
+	nForced := r.N(160, 16000)
+	nConc := r.N(80, 8000)
 	for i := 0; i < nDirect && r.Violations() < 12; i++ {
 		h := genSeq(rng, "direct", 25)
 		k.guarded(h, func() { k.runSeq(h, i) })
